@@ -120,14 +120,15 @@ CHECKS["C16"] = dict(
 CHECKS["C06"] = dict(
    text="Interleaving-level Gallina model of the nodes thread protocol (ConcModel.v: _populate_queue, _apply_udf, _sort_worker, _ParallelMapperIter / _SingleThreadedMapper "
         "__init__/__next__/_shutdown, QueueSnapshotStore, reset() as generations of iterators over one shared source; one model step = one queue/semaphore/event/join/sleep "
-        "primitive; timeouts are schedule choices). Theorems in Properties_C06.v (pop_version discipline proved for every store; the consumer-position invariant is stated in "
-        "full and not yet proved - see the file). Tie to the code: the REAL threads are run under a deterministic scheduler (every primitive a yield point) and the recorded "
+        "primitive; timeouts are schedule choices). Theorems in Properties_C06.v: for the Prefetcher, in every reachable state of every schedule without a reader-join timeout, "
+        "snapshot + steps = start position + items received (the consumer position, never the reader's), over any script incl. resets and loads; pop_version discipline for every store; "
+        "for ParallelMapper(in_order) the same statement is the target. Tie to the code: the REAL threads are run under a deterministic scheduler (every primitive a yield point) and the recorded "
         "schedule is replayed on the model, compared at EVERY step (pending primitive, offered moves, semaphore, queue contents, store versions) and on every outcome; "
         "oracle: each state_dict() denotes exactly the consumer position and each continuation after a load equals the reference.",
    design="DESIGN.md 4 C06",
    note="Trusted: Coq kernel + vm_compute; the cooperative primitives of harness/sched_threads.py (linearizable, GIL-atomic attribute reads); instrumented source whose state is its position; "
-        "schedules in which a join() of an old reader times out belong to C12's known finding D10 and are excluded here; the invariant snap+steps = consumer position is checked by "
-        "correspondence+oracle on every case, its Coq proof is pending (partial).",
+        "schedules in which a join() of an old reader times out belong to C12's known finding D10 and are excluded here; the invariant snap+steps = consumer position is proved for Prefetcher and, for ParallelMapper, checked by "
+        "correspondence+oracle on every case (partial in that sense).",
    technique="Coq proof (store discipline) over hand-written interleaving model + step-by-step lockstep correspondence under a deterministic thread scheduler + direct oracle")
 CHECKS["C11"] = dict(
    text="Same interleaving model. Theorems in Properties_C11.v: every wait is timed (a thread that has not finished always has a move, in ANY state), no reachable state of any schedule "
